@@ -268,7 +268,7 @@ class Eval:
             raise _Unsupported("literal pattern")
         if k == "tuple":
             sc = H.strip(scrut)
-            if sc.get("k") == "tuple" and len(sc.get("es", [])) == len(pat["pats"]):
+            if sc.get("k") == "tup" and len(sc.get("es", [])) == len(pat["pats"]):
                 binds = {}
                 for sp, se in zip(pat["pats"], sc["es"]):
                     ok, b = self.pat_test(sp, se, loc)
